@@ -30,8 +30,10 @@ func allEntries(h *harness) []*entry {
 	out = append(out, dagEntries(h)...)
 	out = append(out, ibltEntry(h))
 	out = append(out, peEntries(h)...)
+	out = append(out, peGridEntry(h))
 	out = append(out, didEntries(h)...)
 	out = append(out, cryptoEntries(h)...)
+	out = append(out, keyGridEntries(h)...)
 	out = append(out, vcrEntries(h)...)
 	out = append(out, statusListRefreshEntry(h))
 	out = append(out, cacheEntries(h)...)
